@@ -61,6 +61,9 @@ DOC_TAILS = ['', 'x', 'y', ' ', '!', ' x', 'x ']
 LANG_SEL = [':lang(en)', ':lang("*-x")', ':lang("en-*-x")', ':lang("*")', ':lang("")', ':lang(en, de, fr)']
 LANG_PUMPS = ['a-', 'en-', '*-', 'x-', '-', 'a', '1-', 'aa-bb-']
 RANGE_TYPES = ['number', 'range', 'date', 'month', 'week', 'time', 'datetime-local']
+VALID_PREFIXES = {'time': ['12:30', '12:30:15', '12:30:15.', '12:'], 'datetime-local': ['2020-06-15T12:30', '2020-06-15T12:30:15.', '2020-06-15T'],
+                  'date': ['2020-06-15', '2020-06-'], 'week': ['2020-W10', '2020-W'], 'month': ['2020-06', '2020-'], 'number': ['1.', '-1', '.5', '1e'],
+                  'range': ['1.', '5']}
 RANGE_PUMPS = ['1', '0', '9', '.', '-', '1.', '-1', ':', 'T', 'W', '1-', ' ']
 TEXT_SEL = [':-soup-contains(x)', ':-soup-contains-own(x, y)', ':dir(ltr)', ':empty', ':placeholder-shown', ':read-write']
 
@@ -204,6 +207,11 @@ def run_unit(u):
             for pump in RANGE_PUMPS:
                 for tail in ('', '1', 'x', '-01'):
                     jobs.append(('range', ty, pump, tail))
+        for ty, prefixes in VALID_PREFIXES.items():
+            for pre in prefixes:
+                for pump in ('1', '0', '12', '.1', ':1', '-1', '1 ', '9'):
+                    for tail in ('', 'Z', ' ', 'x'):
+                        jobs.append(('range2', ty, pre + '\0' + pump, tail))
         for s in TEXT_SEL:
             for pump in ('x', ' ', 'ab ', '\n', 'א', 'y'):
                 jobs.append(('text', s, pump, ''))
@@ -216,7 +224,7 @@ def run_unit(u):
             return compiled[s]
 
         def setup(kind, s, pump, tail, n):
-            v = pump * max(1, (n - len(tail)) // len(pump)) + tail
+            v = pump.replace('\0', '') * max(1, (n - len(tail)) // max(1, len(pump))) + tail
             if kind == 'attr':
                 for a in ('a', 'class', 'type', 'id'):
                     p[a] = v
@@ -228,6 +236,14 @@ def run_unit(u):
                     sel = ':lang("%s")' % v.replace('\\', '').replace('"', '')
                     return lambda: (C(s).match(p), sv.match(sel, p))
                 return lambda: C(s).match(p)
+            if kind == 'range2':
+                pre, pmp = pump.split('\0')
+                v2 = pre + pmp * max(1, (n - len(pre) - len(tail)) // len(pmp)) + tail
+                inp_el['type'] = s
+                inp_el['min'] = v2
+                inp_el['max'] = pre
+                inp_el['value'] = v2
+                return lambda: (C(':in-range').match(inp_el), C(':out-of-range').match(inp_el))
             if kind == 'range':
                 inp_el['type'] = s
                 inp_el['min'] = v
